@@ -539,6 +539,15 @@ func (tm *TaskMaster) StartTask(t *Task) (*ExecutingTask, error) {
 		return nil, err
 	}
 
+	// Load the snapshot first, nothing may fail once the task is subscribed to its data.
+	var snapshot *TaskSnapshot
+	if tm.TaskStore.HasSnapshot(t.ID) {
+		snapshot, err = tm.TaskStore.LoadSnapshot(t.ID)
+		if err != nil {
+			return nil, err
+		}
+	}
+
 	var ins []edge.StatsEdge
 	switch et.Task.Type {
 	case StreamTask:
@@ -561,16 +570,11 @@ func (tm *TaskMaster) StartTask(t *Task) (*ExecutingTask, error) {
 		}
 	}
 
-	var snapshot *TaskSnapshot
-	if tm.TaskStore.HasSnapshot(t.ID) {
-		snapshot, err = tm.TaskStore.LoadSnapshot(t.ID)
-		if err != nil {
-			return nil, err
-		}
-	}
-
 	err = et.start(ins, snapshot)
 	if err != nil {
+		// Do not leave the task subscribed to data that nobody reads.
+		tm.delFork(t.ID)
+		delete(tm.batches, t.ID)
 		return nil, err
 	}
 
